@@ -124,8 +124,13 @@ fn gen_slice3(src: &mut Src, _t: Tier) -> Case {
 pub const SLICE2_BUDGET: u64 = 5_000_000;
 pub const SLICE3_BUDGET: u64 = 400_000_000;
 
+/// steps(engine) <= REF_K * steps(reference ordered search) + slack. The largest ratio observed on the repaired tree is
+/// below 25 (evidence class max_engine_steps_per_reference_step_x100); REF_K leaves more than an order of magnitude.
+pub const REF_K: u64 = 500;
+
 fn check_on(case: &Case, hays: &[String], l: &mut Local, budget: u64) -> Verdict {
     let fl = Fl::parse(&case.flags);
+    let rf = crate::esref::compile(&case.pat, fl).ok();
     let t = tf(&case.pat);
     let mut backtracked = false;
     for no_opt in [false, true] {
@@ -136,6 +141,11 @@ fn check_on(case: &Case, hays: &[String], l: &mut Local, budget: u64) -> Verdict
         };
         let insns = re.verif_insn_count() as u64;
         for h in hays {
+            // the reference model's own ordered search (steps counted by esref); None = it declines or exceeds its cap
+            let ref_steps: Option<u64> = rf.as_ref().and_then(|r| match r.find(h, 0, 2_000_000) {
+                (crate::esref::Found::Aborted, _) => None,
+                (_, n) => Some(n),
+            });
             let mut steps = [0u64; 2];
             for (k, eng) in [Engine::Bt, Engine::Pike].iter().enumerate() {
                 let (o, rep) = first_with(&re, *eng, Enc::Utf8, h, 0, budget);
@@ -154,6 +164,20 @@ fn check_on(case: &Case, hays: &[String], l: &mut Local, budget: u64) -> Verdict
                 }
                 steps[k] = rep.used;
                 l.max(if k == 0 { "max_steps_backtrack" } else { "max_steps_pikevm" }, rep.used);
+                if let Some(rs) = ref_steps {
+                    l.max("max_engine_steps_per_reference_step_x100", rep.used * 100 / (rs + 1));
+                    if rep.used > REF_K * rs + 64 * (h.len() as u64 + insns + 16) {
+                        return Verdict::Fail(format!(
+                            "{:?} ({}) on \"{}\": {} steps where the ECMAScript reference search needs {} (bound: {} x reference + slack)",
+                            eng,
+                            if no_opt { "no_opt" } else { "opt" },
+                            show_str(h),
+                            rep.used,
+                            rs,
+                            REF_K
+                        ));
+                    }
+                }
                 l.max("max_stack", rep.max_stack as u64);
                 if rep.max_stack as u64 > 4 * rep.used + 64 {
                     return Verdict::Fail(format!("{:?} on \"{}\": backtrack store {} exceeds 4*steps ({})", eng, show_str(h), rep.max_stack, rep.used));
@@ -232,6 +256,18 @@ fn check_random(case: &Case, l: &mut Local) -> Verdict {
     l.max("max_steps_pikevm", r2.used);
     let insns = re.verif_insn_count() as u64;
     let slack = 64 * (case.hay.len() as u64 + insns + 16);
+    let ref_steps: Option<u64> = crate::esref::compile(&case.pat, fl).ok().and_then(|r| match r.find(&case.hay, 0, 2_000_000) {
+        (crate::esref::Found::Aborted, _) => None,
+        (_, n) => Some(n),
+    });
+    if let Some(rs) = ref_steps {
+        for (r, name) in [(&r1, "backtrack"), (&r2, "pikevm")] {
+            l.max("max_engine_steps_per_reference_step_x100", r.used * 100 / (rs + 1));
+            if r.used > REF_K * rs + slack {
+                return Verdict::Fail(format!("{} needs {}{} steps where the ECMAScript reference search needs {}", name, if r.exhausted { "more than " } else { "" }, r.used, rs));
+            }
+        }
+    }
     match (r1.exhausted, r2.exhausted) {
         (true, true) => return Verdict::Skip("both_executors_exceed_20M_steps"),
         (true, false) => {
@@ -271,6 +307,7 @@ pub fn variants() -> Vec<&'static Variant> {
 }
 
 pub fn run(ctx: &Ctx) -> i32 {
+    crate::esref::selftest::ensure();
     match ctx.tier {
         Tier::Quick => {
             ctx.run_list(&V2, slice(2));
@@ -284,7 +321,7 @@ pub fn run(ctx: &Ctx) -> i32 {
     ctx.agg.lock().unwrap().exhaustive = true;
     ctx.finish(
         "exploration",
-        "EXHAUSTIVE slice: all nestings (depth <= 2 quick, <= 3 thorough) of 10 quantifier shapes x {greedy, lazy} over 13 bodies {a, a?, a*, a??, (?:), (a|), (|a), (a)?, (a?)\\1, (?=a), (?<=a), \\b, [ab]} with tails {b, $, none}, placed forward / inside a lookbehind / inside a lookahead, on ALL haystacks in {a,b}^<=4, both executors, both pipelines; oracle: the fuel hook's deterministic step counter - every search must finish within a fixed budget (>= 20x the worst count observed on the repaired tree: 5M steps for the depth-2 slice, 400M for depth 3), the backtrack store must stay <= 4*steps, and neither executor may need more than 200x the other's steps (+slack): they perform the same ordered search, so a hang or blow-up confined to one is caught without a clock. Plus random nested-quantifier patterns with |H| <= 10 judged by the mutual ratio. Non-trivial = pattern has a quantifier and the run pushed backtracking state.",
-        &["hook: fuel counter in both executors (ticks per instruction / backtrack pop)", "the wall clock never decides; budget overruns of BOTH executors on random cases are skipped and counted", "ratio against the ES reference model is added by C01's machinery (esref steps)"],
+        "EXHAUSTIVE slice: all nestings (depth <= 2 quick, <= 3 thorough) of 10 quantifier shapes x {greedy, lazy} over 13 bodies {a, a?, a*, a??, (?:), (a|), (|a), (a)?, (a?)\\1, (?=a), (?<=a), \\b, [ab]} with tails {b, $, none}, placed forward / inside a lookbehind / inside a lookahead, on ALL haystacks in {a,b}^<=4, both executors, both pipelines; oracle: the fuel hook's deterministic step counter - every search must finish within a fixed budget (>= 20x the worst count observed on the repaired tree: 5M steps for the depth-2 slice, 400M for depth 3), the backtrack store must stay <= 4*steps, neither executor may need more than 200x the other's steps (+slack), and neither may need more than 500x the steps of the ES reference model's own ordered search (esref counts its steps) - so a hang or blow-up is caught without a clock even when both executors share it. Plus random nested-quantifier patterns with |H| <= 10 judged by the mutual ratio. Non-trivial = pattern has a quantifier and the run pushed backtracking state.",
+        &["hook: fuel counter in both executors (ticks per instruction / backtrack pop)", "the wall clock never decides; budget overruns of BOTH executors on random cases are skipped and counted", "esref (reference model) provides steps(reference ordered search)"],
     )
 }
